@@ -64,7 +64,7 @@ def _solve(ctx, maze, g, s, e, case, cache, as_array=False):
                 res[...] = -1
         except Exception:  # noqa: BLE001
             pass
-        if _ASK[0] % 7 == 0:
+        if _ASK[0] % 7 == 0 and case.get("kind") != "long-lived":   # (the long-lived protocol counts the queries each object answered)
             try:
                 res2, exc2 = maze.find_shortest_path(s, e), None
             except Exception as ex:  # noqa: BLE001
